@@ -486,6 +486,7 @@ REGIONS = {'ulp_mat': _ulp_mat_region}
 
 # ------------------------------------------------------------------------------------------------ tiers -> units, jobs
 _BUILT = {}
+CASES = {}        # tier -> [(group, type, qualifier, Unit, cases)]  (props/c20.py sweeps the float catalogue under UBSan-trap IR)
 def build(tier):
     if tier in _BUILT: return _BUILT[tier]
     q = tier == 'quick'
@@ -496,7 +497,7 @@ def build(tier):
         if not cases: return
         U = Unit('c01_%s_%s_%s' % (group, t, ql), includes=includes)
         for C in cases: C.add_to(U)
-        units.append(U)
+        units.append(U); CASES.setdefault(tier, []).append((group, t, ql, U, cases))
         per = (len(cases) + split - 1) // split
         for k in range(split):
             part = cases[k * per:(k + 1) * per]
